@@ -338,9 +338,9 @@ fn stage_long(i: &Input, c: &mut Case) -> Result<(), String> {
 pub const STAGES: &[Stage] = &[Stage { name: "header", f: stage_header }, Stage { name: "stream", f: stage_stream }, Stage { name: "long_stream", f: stage_long }];
 
 pub fn run(rc: &mut RunCtx) {
-    rc.run_pt(STAGES[0], rc.pick(80_000, 1_500_000), (96, 300));
-    rc.run_pt(STAGES[1], rc.pick(80_000, 1_500_000), (96, 500));
-    rc.run_pt(STAGES[2], rc.pick(4_000, 60_000), (8, 8));
+    rc.run_pt(STAGES[0], rc.pick(320_000, 1_500_000), (96, 300));
+    rc.run_pt(STAGES[1], rc.pick(320_000, 1_500_000), (96, 500));
+    rc.run_pt(STAGES[2], rc.pick(16_000, 60_000), (8, 8));
     for l in ["above_limit_wide_field", "within_limit_payload_missing", "limit_untouched", "inside_known_with_room", "inside_unknown"] {
         rc.require_label("header", l, 20_000);
     }
